@@ -61,6 +61,7 @@ package engine
 //@   requires cycle == $runBegin
 //@   requires $evalStamp[entry] == $stamp && $evalCnt[entry] == 1 && $evalCand[entry] == candidate
 //@   requires $notifStamp[entry] != $stamp
+//@   requires[C10,C06] onlyactive: entry != nil && active(entry)
 //@   nopanic
 //@   modifies @evlog
 //@   ensures delivered(g, old($evN), 2, cycle) && logKept(old($evN))
